@@ -44,8 +44,9 @@ from pathlib import Path
 
 BINOPS = ["+", "-", "*"]
 CMPOPS = ["<", ">", "==", "!=", "<=", ">="]
-GLOBALS = ["G0", "G1"]
+GLOBALS = ["G0", "G1", "_G2"]
 ATTRS = ["v", "w"]
+CLASS_ATTRS = ["step", "_start"]          # defined in the class body of Box, read through instances and the class
 
 
 class Gen:
@@ -63,7 +64,9 @@ class Gen:
         if "globals" in self.feat:
             choices.append("g")
         if "attrs" in self.feat and objs:
-            choices += ["attr", "attr"]
+            choices += ["attr", "attr", "scaled"]
+        if "attrs" in self.feat:
+            choices += ["cattr"]
         if "lists" in self.feat and lists:
             choices += ["idx", "idx", "len"]
         if "lists" in self.feat and env["nests"]:
@@ -80,7 +83,11 @@ class Gen:
         if k == "g":
             return ("g", r.choice(GLOBALS))
         if k == "attr":
-            return ("attr", r.choice(objs), r.choice(ATTRS))
+            return ("attr", r.choice(objs), r.choice(ATTRS + CLASS_ATTRS))
+        if k == "cattr":
+            return ("cattr", r.choice(CLASS_ATTRS))
+        if k == "scaled":
+            return ("scaled", r.choice(objs), self.expr(env, depth + 1, ()))
         if k == "idx":
             name = r.choice(lists)
             return ("idx", name, r.randrange(0, env["listlen"][name]))
@@ -151,6 +158,13 @@ class Gen:
             choices += ["callstmt"]
         if "condbound" in self.feat and env["ints"]:
             choices += ["condassign"]
+        if len(choices) and r.random() < 0.12:
+            names = r.sample(["a", "b", "c", "d", "e"], 2)
+            e = self.expr(env, 0, helpers)
+            for nm in names:
+                if nm not in env["ints"]:
+                    env["ints"].append(nm)
+            return ("chain", names[0], names[1], e)
         k = r.choice(choices)
         if k == "condassign":
             return self.cond_assign(env, r.choice(["u", "w"]))
@@ -353,6 +367,10 @@ def r_expr(e):
         return f"{e[1]}[{e[2]}]"
     if k == "len":
         return f"len({e[1]})"
+    if k == "cattr":
+        return f"Box.{e[1]}"
+    if k == "scaled":
+        return f"{e[1]}.scaled({r_expr(e[2])})"
     if k == "idx2":
         return f"{e[1]}[{e[2]}][{e[3]}]"
     if k == "bin":
@@ -396,6 +414,8 @@ class Renderer:
                 self.emit(f"{pad}{s[1]} = [{', '.join(r_expr(a) for a in s[2])}]", s)
             elif k == "alias":
                 self.emit(f"{pad}{s[1]} = {s[2]}", s)
+            elif k == "chain":
+                self.emit(f"{pad}{s[1]} = {s[2]} = {r_expr(s[3])}", s)
             elif k == "newnest":
                 self.emit(f"{pad}{s[1]} = [[{r_expr(s[2])}], {s[3]}]", s)
             elif k == "setidx2":
@@ -432,6 +452,13 @@ def render(case):
     r.emit("")
     r.emit("")
     r.emit("class Box:")
+    r.emit("    step = 2")
+    box_step = len(r.lines)
+    r.emit("    _start = 4")
+    box_start = len(r.lines)
+    r.emit("    _Box__scale = 3")       # what `self.__scale` inside the class refers to (name mangling)
+    box_scale = len(r.lines)
+    r.emit("")
     r.emit("    def __init__(self, v):")
     r.emit("        self.v = v")
     box_v = len(r.lines)
@@ -445,6 +472,10 @@ def render(case):
     r.emit("    def get(self):")
     r.emit("        return self.v")
     box_get = len(r.lines)
+    r.emit("")
+    r.emit("    def scaled(self, value):")
+    r.emit("        return value * self.__scale")
+    box_scaled = len(r.lines)
     flines = {}
     for fn in case["funcs"]:
         r.emit("")
@@ -455,7 +486,10 @@ def render(case):
             r.emit(f"    global {', '.join(fn['globals'])}")
         r.block(fn["body"], 1)
     return "\n".join(r.lines) + "\n", {"stmt": r.lineof, "glob": glines, "box_v": box_v, "box_w": box_w, "box_set": box_set,
-                                        "box_get": box_get, "func": flines}
+                                        "box_get": box_get, "func": flines,
+                                        "box_cls": {"step": (2, box_step), "_start": (4, box_start),
+                                                    "_Box__scale": (3, box_scale)},
+                                        "box_scaled": box_scaled}
 
 
 # ------------------------------------------------------------------------------------------------
@@ -501,6 +535,11 @@ class Shadow:
     def line(self, s):
         return self.lm["stmt"][id(s)]
 
+    def cls(self, name):
+        """class-level attribute of Box: defined by its line in the class body"""
+        val, line = self.lm["box_cls"][name]
+        return TV(val, frozenset({line}))
+
     def base(self, tv):
         """dependences of the variable that holds the object/list an attribute/element is taken
         from (which object is accessed); switched off in the `nobase` classification mode"""
@@ -516,8 +555,15 @@ class Shadow:
             return self.globals[e[1]]
         if k == "attr":
             o = env[e[1]]
-            fld = o.val.f[e[2]]
+            fld = o.val.f[e[2]] if e[2] in o.val.f else self.cls(e[2])
             return TV(fld.val, fld.dep | self.base(o))
+        if k == "cattr":
+            return self.cls(e[1])
+        if k == "scaled":
+            o = env[e[1]]
+            v = self.ev(e[2], env, ctx)
+            sc = self.cls("_Box__scale")
+            return TV(v.val * sc.val, v.dep | sc.dep | self.base(o) | ctx | {self.lm["box_scaled"]})
         if k == "idx":
             l = env[e[1]]
             el = l.val[e[2]]
@@ -586,6 +632,10 @@ class Shadow:
             elif k == "alias":
                 o = env[s[2]]
                 env[s[1]] = TV(o.val, o.dep | here)
+            elif k == "chain":
+                v = self.ev(s[3], env, ctx)
+                env[s[1]] = TV(v.val, v.dep | here)
+                env[s[2]] = TV(v.val, v.dep | here)
             elif k == "setattr":
                 v = self.ev(s[3], env, ctx)
                 o = env[s[1]]
